@@ -5,7 +5,8 @@ Vals(w) == { Rep(0, w), Rep(0, w - 1) \o <<1>>, Rep(255, w - 1) \o <<254>>, Rep(
 Base == [magic |-> Magic, size |-> Rep(0, 4), aes_rand |-> [i \in 1..16 |-> i], ansi_cp |-> <<228, 4>>, oem_cp |-> <<181, 1>>,
          bid |-> <<0, 0, 4, 210>>, pid |-> <<0, 0, 16, 225>>, port |-> <<0, 0>>, flag |-> <<6>>, ver_major |-> <<10>>, ver_minor |-> <<0>>,
          ver_build |-> <<74, 97>>, ptr_x64 |-> Rep(0, 4), ptr_gmh |-> Rep(0, 4), ptr_gpa |-> Rep(0, 4), ip |-> <<10, 0, 0, 5>>, info |-> <<87, 9, 117, 9, 112>>]
-Varied == { [Base EXCEPT ![f] = v] : f \in { Fields[i] : i \in 1..Len(Fields) } \ {"magic", "size"}, v \in Vals(4) \cup Vals(2) \cup Vals(1) \cup Vals(16) }
+\* the size field is varied too: whatever the caller left in it, the serialisation carries the consistent value
+Varied == { [Base EXCEPT ![f] = v] : f \in { Fields[i] : i \in 1..Len(Fields) } \ {"magic"}, v \in Vals(4) \cup Vals(2) \cup Vals(1) \cup Vals(16) }
 WellTyped(md) == \A i \in 1..Len(Fields) : Len(md[Fields[i]]) = Width[Fields[i]]
 InfoOf(n) == [i \in 1..n |-> 65 + (i % 26)]
 Mds == { md \in Varied : WellTyped(md) } \cup { [Base EXCEPT !.info = InfoOf(n)] : n \in {0, 1, MaxInfo(128) - 1, MaxInfo(128), MaxInfo(128) + 1, MaxInfo(256) - 1, MaxInfo(256), MaxInfo(256) + 1} }
